@@ -205,6 +205,7 @@ inductive SineExit where
   | bisected     -- return from inside the bisection (error below 1e-3)
   | bracket      -- bisection narrowed the bracket to 1ns: its upper end
   | nobracket    -- no bracket / deadline beyond the representable time: stop
+  | maxhits      -- elapsedHits == MaxUint64 (hits+1 would overflow): stop
   | unconverged  -- old code: last guess of the fixed-point loop; new code: bisection fuel exhausted
   deriving DecidableEq, Repr, Inhabited
 
@@ -238,10 +239,11 @@ def sineBisect (p : SineP F) (t : Int) (hits : Nat) : Nat → Int → Int → In
       else sineBisect p t hits k lo mid
     else (up, .bracket)
 
-/-- `SinePacer.Pace` with the exit taken, lib/pacer.go (commit 7529829): 5 fixed-point
-iterations, then bisection of `[0, hi]`. -/
+/-- `SinePacer.Pace` with the exit taken, lib/pacer.go (commits 7529829, 4a0988c): stop at
+`hits == MaxUint64`, 5 fixed-point iterations, then bisection of `[0, hi]`. -/
 def sinePaceX (p : SineP F) (t : Int) (hits : Nat) : PaceOut × SineExit :=
   if sineInvalid o p = true then (.stop, .invalid)
+  else if (hits : Int) = (two64 : Int) - 1 then (.stop, .maxhits)     -- commit 4a0988c
   else if (hits : Int) < o.toUInt64 (sineHits o p t) then (.wait 0, .behind)
   else
     let r := sineIter o p t hits 5 (sineFirstGuess o p t hits)
@@ -285,7 +287,7 @@ def linearHits (p : LinearP F) (t : Int) : F :=
   if t < 0 then o.zero
   else o.add (o.div (o.mul p.slope (o.sq (seconds o t))) o.two) (o.mul (linearB o p) (seconds o t))
 
-/-- `LinearPacer.Pace`, lib/pacer.go:259-285. -/
+/-- `LinearPacer.Pace` (with commit 4a0988c: stop instead of wrapping at the integer limits). -/
 def linearPace (p : LinearP F) (t : Int) (hits : Nat) : PaceOut :=
   if p.per = 0 ∨ p.freq = 0 then .wait 0
   else if p.per < 0 ∨ p.freq < 0 then .stop
@@ -306,7 +308,11 @@ def linearPace (p : LinearP F) (t : Int) (hits : Nat) : PaceOut :=
       | some true => .stop
       | some false =>
         let delta := o.sub (o.ofUInt64 (wrapU64 ((hits : Int) + 1))) expected
-        .wait (o.toInt64 (o.mul interval delta))
+        let wait := o.mul interval delta
+        -- commit 4a0988c: `if hits == math.MaxUint64 || wait >= math.MaxInt64 { return 0, true }`
+        -- (`math.MaxInt64` converted to float64, i.e. `float64(int64 max)`)
+        if (hits : Int) = (two64 : Int) - 1 ∨ o.le (o.ofInt64 maxInt64) wait = true then .stop
+        else .wait (o.toInt64 wait)
 
 end generic
 
